@@ -75,16 +75,6 @@ theorem Interval.ext_s (b : Interval α) (lo hi : α) : Interval.ext b lo hi =
     ⟨smin b.min lo, smax b.max hi⟩ := by
   simp only [Interval.ext, smin_eq_min, smax_eq_max]
 
-theorem Interval.extendByPoint_eq (b : Interval α) (p : α) : Gen.Interval.extendByPoint b p = Interval.ext b p p := by
-  rw [Interval.ext_s]; unfold Gen.Interval.extendByPoint smin smax
-  casesplit h0a : p < b.min <;>
-  casesplit h0b : b.max < p
-
-theorem Interval.extendByBox_eq (b : Interval α) (o : Interval α) : Gen.Interval.extendByBox b o = Interval.ext b o.min o.max := by
-  rw [Interval.ext_s]; unfold Gen.Interval.extendByBox smin smax
-  casesplit h0a : o.min < b.min <;>
-  casesplit h0b : b.max < o.max
-
 /-- extending a non-inverted box by a non-inverted range is their least upper bound -/
 theorem Interval.ext_subset_iff (b c : Interval α) (lo hi : α) (hb : ¬ Interval.Inverted b) (h0 : lo ≤ hi) :
     Interval.Subset (Interval.ext b lo hi) c ↔ Interval.Subset b c ∧ Interval.Subset ⟨lo, hi⟩ c := by
@@ -115,21 +105,21 @@ theorem Interval.ext_by_canonEmpty (tmax tlowest : α) (hr : ∀ x : α, tlowest
   simp only [Interval.ext, Interval.canonEmpty, min_eq_left (hr _).2, max_eq_left (hr _).1]
 
 /-- one `extendBy` call -/
-def Interval.step (b : Interval α) : Interval.Arg α → Interval α
-  | .pt p => Gen.Interval.extendByPoint b p
-  | .bx o => Gen.Interval.extendByBox b o
+def Interval.stepN (b : Interval α) : Interval.Arg α → Interval α
+  | .pt p => Interval.ext b p p
+  | .bx o => Interval.ext b o.min o.max
 
 /-- a sequence of `extendBy` calls, in order -/
-def Interval.extendAll (b : Interval α) (args : List (Interval.Arg α)) : Interval α := args.foldl Interval.step b
+def Interval.extendAllN (b : Interval α) (args : List (Interval.Arg α)) : Interval α := args.foldl Interval.stepN b
 
-theorem Interval.step_spec (tmax tlowest : α) (hlt : tlowest < tmax) (hr : ∀ x : α, tlowest ≤ x ∧ x ≤ tmax)
+theorem Interval.stepN_spec (tmax tlowest : α) (hlt : tlowest < tmax) (hr : ∀ x : α, tlowest ≤ x ∧ x ≤ tmax)
     (b : Interval α) (hb : Interval.Canon tmax tlowest b) (a : Interval.Arg α) (ha : a.Ok tmax tlowest) :
-    Interval.Canon tmax tlowest (Interval.step b a) ∧ ∀ c, Interval.Subset (Interval.step b a) c ↔ Interval.Subset b c ∧ a.Within c := by
+    Interval.Canon tmax tlowest (Interval.stepN b a) ∧ ∀ c, Interval.Subset (Interval.stepN b a) c ↔ Interval.Subset b c ∧ a.Within c := by
   have hce : ∀ c, Interval.Subset (Interval.canonEmpty tmax tlowest) c :=
     fun c => Interval.subset_of_inverted _ c (Interval.canonEmpty_inverted tmax tlowest hlt)
   cases a with
   | pt p =>
-    simp only [Interval.step, Interval.extendByPoint_eq, Interval.Arg.Within]
+    simp only [Interval.stepN, Interval.Arg.Within]
     rcases hb with hb | rfl
     · refine ⟨Or.inl (Interval.ext_not_inverted b p p hb), fun c => ?_⟩
       rw [Interval.ext_subset_iff b c p p hb (le_refl _), Interval.point_subset_iff]
@@ -138,7 +128,7 @@ theorem Interval.step_spec (tmax tlowest : α) (hlt : tlowest < tmax) (hr : ∀ 
       · simp only [Interval.Inverted, not_or, not_lt]; bord
       · rw [Interval.point_subset_iff]; exact ⟨fun h => ⟨hce c, h⟩, fun h => h.2⟩
   | bx o =>
-    simp only [Interval.step, Interval.extendByBox_eq, Interval.Arg.Within]
+    simp only [Interval.stepN, Interval.Arg.Within]
     simp only [Interval.Arg.Ok] at ha
     rcases hb with hb | rfl
     · rcases ha with ho | rfl
@@ -152,69 +142,29 @@ theorem Interval.step_spec (tmax tlowest : α) (hlt : tlowest < tmax) (hr : ∀ 
     · rw [Interval.ext_canonEmpty tmax tlowest hr]
       exact ⟨ha, fun c => ⟨fun h => ⟨hce c, h⟩, fun h => h.2⟩⟩
 
-theorem Interval.extendAll_spec (tmax tlowest : α) (hlt : tlowest < tmax) (hr : ∀ x : α, tlowest ≤ x ∧ x ≤ tmax)
+theorem Interval.extendAllN_spec (tmax tlowest : α) (hlt : tlowest < tmax) (hr : ∀ x : α, tlowest ≤ x ∧ x ≤ tmax)
     (args : List (Interval.Arg α)) : ∀ (b : Interval α), Interval.Canon tmax tlowest b → (∀ a ∈ args, a.Ok tmax tlowest) →
-    Interval.Canon tmax tlowest (Interval.extendAll b args) ∧
-      ∀ c, Interval.Subset (Interval.extendAll b args) c ↔ Interval.Subset b c ∧ ∀ a ∈ args, a.Within c := by
+    Interval.Canon tmax tlowest (Interval.extendAllN b args) ∧
+      ∀ c, Interval.Subset (Interval.extendAllN b args) c ↔ Interval.Subset b c ∧ ∀ a ∈ args, a.Within c := by
   induction args with
-  | nil => intro b hb _; exact ⟨hb, fun c => by simp [Interval.extendAll]⟩
+  | nil => intro b hb _; exact ⟨hb, fun c => by simp [Interval.extendAllN]⟩
   | cons a rest ih =>
     intro b hb hargs
-    have hs := Interval.step_spec tmax tlowest hlt hr b hb a (hargs a (List.mem_cons_self ..))
-    have := ih (Interval.step b a) hs.1 (fun x hx => hargs x (List.mem_cons_of_mem _ hx))
+    have hs := Interval.stepN_spec tmax tlowest hlt hr b hb a (hargs a (List.mem_cons_self ..))
+    have := ih (Interval.stepN b a) hs.1 (fun x hx => hargs x (List.mem_cons_of_mem _ hx))
     refine ⟨this.1, fun c => ?_⟩
     have h2 := this.2 c
-    simp only [Interval.extendAll, List.foldl_cons, List.mem_cons, forall_eq_or_imp] at h2 ⊢
+    simp only [Interval.extendAllN, List.foldl_cons, List.mem_cons, forall_eq_or_imp] at h2 ⊢
     rw [h2, hs.2 c, and_assoc]
-
-theorem Interval.intersectsPoint_iff (b : Interval α) (p : α) : Gen.Interval.intersectsPoint b p = true ↔ Interval.Mem p b := by
-  simp only [Gen.Interval.intersectsPoint, ite_false_iff, ite_false'_iff, not_lt, not_le, Interval.Mem, and_assoc, and_true] <;> tauto
-
-/-- for NON-EMPTY boxes `intersects(box)` is per-axis overlap of the min/max pairs (written so that it also holds if the
-code tests emptiness first) -/
-theorem Interval.intersectsBox_iff_axes_of_nonempty (a b : Interval α) (ha : ¬ Interval.Inverted a) (hb : ¬ Interval.Inverted b) :
-    Gen.Interval.intersectsBox a b = true ↔ (b.min ≤ a.max ∧ a.min ≤ b.max) := by
-  simp only [Interval.Inverted, not_or, not_lt] at ha hb
-  simp only [Gen.Interval.intersectsBox, ite_false_iff, ite_false'_iff, ite_true_iff, not_lt, not_le, and_assoc, and_true] <;> tauto
 
 theorem Interval.not_inverted_of_mem (p : α) (a : Interval α) (h : Interval.Mem p a) : ¬ Interval.Inverted a :=
   fun hi => (Interval.isEmptySet_iff a).2 hi p h
-
-theorem Interval.intersectsBox_of_common (a b : Interval α) (h : ∃ p, Interval.Mem p a ∧ Interval.Mem p b) :
-    Gen.Interval.intersectsBox a b = true := by
-  obtain ⟨p, hpa, hpb⟩ := h
-  rw [Interval.intersectsBox_iff_axes_of_nonempty a b (Interval.not_inverted_of_mem p a hpa) (Interval.not_inverted_of_mem p b hpb)]
-  obtain ⟨q0a, q0b⟩ := hpa
-  obtain ⟨r0a, r0b⟩ := hpb
-  bord
-
-theorem Interval.intersectsBox_symm (a b : Interval α) : Gen.Interval.intersectsBox a b = Gen.Interval.intersectsBox b a := by
-  unfold Gen.Interval.intersectsBox; split_ifs <;> first | rfl | (exfalso; bord)
 
 theorem Interval.common_of_axes (a b : Interval α) (ha : ¬ Interval.Inverted a) (hb : ¬ Interval.Inverted b)
     (h : (b.min ≤ a.max ∧ a.min ≤ b.max)) :
     ∃ p, Interval.Mem p a ∧ Interval.Mem p b := by
   simp only [Interval.Inverted, not_or, not_lt] at ha hb
   refine ⟨max a.min b.min, ?_, ?_⟩ <;> simp only [Interval.Mem, le_max_iff, max_le_iff] <;> bord
-
-theorem Interval.isEmpty_iff (b : Interval α) : Gen.Interval.isEmpty b = true ↔ Interval.Inverted b := by
-  simp only [Gen.Interval.isEmpty, ite_true_iff, ite_false_iff, ite_false'_iff, Interval.Inverted, Bool.false_eq_true, or_false, and_true, not_lt, not_le] <;> tauto
-
-theorem Interval.hasVolume_iff (b : Interval α) : Gen.Interval.hasVolume b = true ↔ b.min < b.max := by
-  simp only [Gen.Interval.hasVolume, ite_true_iff, ite_false_iff, ite_false'_iff, Bool.false_eq_true, or_false, and_true, not_lt, not_le] <;> tauto
-
-theorem Interval.isInfinite_iff (tmax tlowest : α) (b : Interval α) :
-    Gen.Interval.isInfinite tmax tlowest b = true ↔ b = Interval.canonInfinite tmax tlowest := by
-  obtain ⟨l0, u0⟩ := b
-  simp only [Gen.Interval.isInfinite, ite_false_iff, ite_false'_iff, not_not, Interval.canonInfinite, Interval.mk.injEq, and_true] <;> tauto
-
-theorem Interval.eq_iff (a b : Interval α) : Gen.Interval.eq a b = true ↔ a = b := by
-  obtain ⟨m0, v0⟩ := a
-  obtain ⟨l0, u0⟩ := b
-  simp only [Gen.Interval.eq, ite_false_iff, ite_false'_iff, not_not, Interval.mk.injEq, and_true] <;> tauto
-
-theorem Interval.ne_eq_not_eq (a b : Interval α) : Gen.Interval.ne a b = !Gen.Interval.eq a b := by
-  unfold Gen.Interval.ne Gen.Interval.eq; split_ifs <;> rfl
 
 /-- normal form of `clip` / `closestPointInBox`: per axis `(p < min) ? min : (p > max) ? max : p` -/
 def Interval.clipN (p : α) (b : Interval α) : α := sclamp p b.min b.max
@@ -292,20 +242,6 @@ theorem Box2.ext_s (b : Box2 α) (lo hi : V2 α) : Box2.ext b lo hi =
     ⟨⟨smin b.min.x lo.x, smin b.min.y lo.y⟩, ⟨smax b.max.x hi.x, smax b.max.y hi.y⟩⟩ := by
   simp only [Box2.ext, smin_eq_min, smax_eq_max]
 
-theorem Box2.extendByPoint_eq (b : Box2 α) (p : V2 α) : Gen.Box2.extendByPoint b p = Box2.ext b p p := by
-  rw [Box2.ext_s]; unfold Gen.Box2.extendByPoint smin smax
-  casesplit h0a : p.x < b.min.x <;>
-  casesplit h0b : b.max.x < p.x <;>
-  casesplit h1a : p.y < b.min.y <;>
-  casesplit h1b : b.max.y < p.y
-
-theorem Box2.extendByBox_eq (b : Box2 α) (o : Box2 α) : Gen.Box2.extendByBox b o = Box2.ext b o.min o.max := by
-  rw [Box2.ext_s]; unfold Gen.Box2.extendByBox smin smax
-  casesplit h0a : o.min.x < b.min.x <;>
-  casesplit h0b : b.max.x < o.max.x <;>
-  casesplit h1a : o.min.y < b.min.y <;>
-  casesplit h1b : b.max.y < o.max.y
-
 /-- extending a non-inverted box by a non-inverted range is their least upper bound -/
 theorem Box2.ext_subset_iff (b c : Box2 α) (lo hi : V2 α) (hb : ¬ Box2.Inverted b) (h0 : lo.x ≤ hi.x) (h1 : lo.y ≤ hi.y) :
     Box2.Subset (Box2.ext b lo hi) c ↔ Box2.Subset b c ∧ Box2.Subset ⟨lo, hi⟩ c := by
@@ -336,21 +272,21 @@ theorem Box2.ext_by_canonEmpty (tmax tlowest : α) (hr : ∀ x : α, tlowest ≤
   simp only [Box2.ext, Box2.canonEmpty, min_eq_left (hr _).2, max_eq_left (hr _).1]
 
 /-- one `extendBy` call -/
-def Box2.step (b : Box2 α) : Box2.Arg α → Box2 α
-  | .pt p => Gen.Box2.extendByPoint b p
-  | .bx o => Gen.Box2.extendByBox b o
+def Box2.stepN (b : Box2 α) : Box2.Arg α → Box2 α
+  | .pt p => Box2.ext b p p
+  | .bx o => Box2.ext b o.min o.max
 
 /-- a sequence of `extendBy` calls, in order -/
-def Box2.extendAll (b : Box2 α) (args : List (Box2.Arg α)) : Box2 α := args.foldl Box2.step b
+def Box2.extendAllN (b : Box2 α) (args : List (Box2.Arg α)) : Box2 α := args.foldl Box2.stepN b
 
-theorem Box2.step_spec (tmax tlowest : α) (hlt : tlowest < tmax) (hr : ∀ x : α, tlowest ≤ x ∧ x ≤ tmax)
+theorem Box2.stepN_spec (tmax tlowest : α) (hlt : tlowest < tmax) (hr : ∀ x : α, tlowest ≤ x ∧ x ≤ tmax)
     (b : Box2 α) (hb : Box2.Canon tmax tlowest b) (a : Box2.Arg α) (ha : a.Ok tmax tlowest) :
-    Box2.Canon tmax tlowest (Box2.step b a) ∧ ∀ c, Box2.Subset (Box2.step b a) c ↔ Box2.Subset b c ∧ a.Within c := by
+    Box2.Canon tmax tlowest (Box2.stepN b a) ∧ ∀ c, Box2.Subset (Box2.stepN b a) c ↔ Box2.Subset b c ∧ a.Within c := by
   have hce : ∀ c, Box2.Subset (Box2.canonEmpty tmax tlowest) c :=
     fun c => Box2.subset_of_inverted _ c (Box2.canonEmpty_inverted tmax tlowest hlt)
   cases a with
   | pt p =>
-    simp only [Box2.step, Box2.extendByPoint_eq, Box2.Arg.Within]
+    simp only [Box2.stepN, Box2.Arg.Within]
     rcases hb with hb | rfl
     · refine ⟨Or.inl (Box2.ext_not_inverted b p p hb), fun c => ?_⟩
       rw [Box2.ext_subset_iff b c p p hb (le_refl _) (le_refl _), Box2.point_subset_iff]
@@ -359,7 +295,7 @@ theorem Box2.step_spec (tmax tlowest : α) (hlt : tlowest < tmax) (hr : ∀ x : 
       · simp only [Box2.Inverted, not_or, not_lt]; bord
       · rw [Box2.point_subset_iff]; exact ⟨fun h => ⟨hce c, h⟩, fun h => h.2⟩
   | bx o =>
-    simp only [Box2.step, Box2.extendByBox_eq, Box2.Arg.Within]
+    simp only [Box2.stepN, Box2.Arg.Within]
     simp only [Box2.Arg.Ok] at ha
     rcases hb with hb | rfl
     · rcases ha with ho | rfl
@@ -373,44 +309,23 @@ theorem Box2.step_spec (tmax tlowest : α) (hlt : tlowest < tmax) (hr : ∀ x : 
     · rw [Box2.ext_canonEmpty tmax tlowest hr]
       exact ⟨ha, fun c => ⟨fun h => ⟨hce c, h⟩, fun h => h.2⟩⟩
 
-theorem Box2.extendAll_spec (tmax tlowest : α) (hlt : tlowest < tmax) (hr : ∀ x : α, tlowest ≤ x ∧ x ≤ tmax)
+theorem Box2.extendAllN_spec (tmax tlowest : α) (hlt : tlowest < tmax) (hr : ∀ x : α, tlowest ≤ x ∧ x ≤ tmax)
     (args : List (Box2.Arg α)) : ∀ (b : Box2 α), Box2.Canon tmax tlowest b → (∀ a ∈ args, a.Ok tmax tlowest) →
-    Box2.Canon tmax tlowest (Box2.extendAll b args) ∧
-      ∀ c, Box2.Subset (Box2.extendAll b args) c ↔ Box2.Subset b c ∧ ∀ a ∈ args, a.Within c := by
+    Box2.Canon tmax tlowest (Box2.extendAllN b args) ∧
+      ∀ c, Box2.Subset (Box2.extendAllN b args) c ↔ Box2.Subset b c ∧ ∀ a ∈ args, a.Within c := by
   induction args with
-  | nil => intro b hb _; exact ⟨hb, fun c => by simp [Box2.extendAll]⟩
+  | nil => intro b hb _; exact ⟨hb, fun c => by simp [Box2.extendAllN]⟩
   | cons a rest ih =>
     intro b hb hargs
-    have hs := Box2.step_spec tmax tlowest hlt hr b hb a (hargs a (List.mem_cons_self ..))
-    have := ih (Box2.step b a) hs.1 (fun x hx => hargs x (List.mem_cons_of_mem _ hx))
+    have hs := Box2.stepN_spec tmax tlowest hlt hr b hb a (hargs a (List.mem_cons_self ..))
+    have := ih (Box2.stepN b a) hs.1 (fun x hx => hargs x (List.mem_cons_of_mem _ hx))
     refine ⟨this.1, fun c => ?_⟩
     have h2 := this.2 c
-    simp only [Box2.extendAll, List.foldl_cons, List.mem_cons, forall_eq_or_imp] at h2 ⊢
+    simp only [Box2.extendAllN, List.foldl_cons, List.mem_cons, forall_eq_or_imp] at h2 ⊢
     rw [h2, hs.2 c, and_assoc]
-
-theorem Box2.intersectsPoint_iff (b : Box2 α) (p : V2 α) : Gen.Box2.intersectsPoint b p = true ↔ Box2.Mem p b := by
-  simp only [Gen.Box2.intersectsPoint, ite_false_iff, ite_false'_iff, not_lt, not_le, Box2.Mem, and_assoc, and_true] <;> tauto
-
-/-- for NON-EMPTY boxes `intersects(box)` is per-axis overlap of the min/max pairs (written so that it also holds if the
-code tests emptiness first) -/
-theorem Box2.intersectsBox_iff_axes_of_nonempty (a b : Box2 α) (ha : ¬ Box2.Inverted a) (hb : ¬ Box2.Inverted b) :
-    Gen.Box2.intersectsBox a b = true ↔ (b.min.x ≤ a.max.x ∧ a.min.x ≤ b.max.x) ∧ (b.min.y ≤ a.max.y ∧ a.min.y ≤ b.max.y) := by
-  simp only [Box2.Inverted, not_or, not_lt] at ha hb
-  simp only [Gen.Box2.intersectsBox, ite_false_iff, ite_false'_iff, ite_true_iff, not_lt, not_le, and_assoc, and_true] <;> tauto
 
 theorem Box2.not_inverted_of_mem (p : V2 α) (a : Box2 α) (h : Box2.Mem p a) : ¬ Box2.Inverted a :=
   fun hi => (Box2.isEmptySet_iff a).2 hi p h
-
-theorem Box2.intersectsBox_of_common (a b : Box2 α) (h : ∃ p, Box2.Mem p a ∧ Box2.Mem p b) :
-    Gen.Box2.intersectsBox a b = true := by
-  obtain ⟨p, hpa, hpb⟩ := h
-  rw [Box2.intersectsBox_iff_axes_of_nonempty a b (Box2.not_inverted_of_mem p a hpa) (Box2.not_inverted_of_mem p b hpb)]
-  obtain ⟨⟨q0a, q0b⟩, ⟨q1a, q1b⟩⟩ := hpa
-  obtain ⟨⟨r0a, r0b⟩, ⟨r1a, r1b⟩⟩ := hpb
-  bord
-
-theorem Box2.intersectsBox_symm (a b : Box2 α) : Gen.Box2.intersectsBox a b = Gen.Box2.intersectsBox b a := by
-  unfold Gen.Box2.intersectsBox; split_ifs <;> first | rfl | (exfalso; bord)
 
 theorem Box2.common_of_axes (a b : Box2 α) (ha : ¬ Box2.Inverted a) (hb : ¬ Box2.Inverted b)
     (h : (b.min.x ≤ a.max.x ∧ a.min.x ≤ b.max.x) ∧ (b.min.y ≤ a.max.y ∧ a.min.y ≤ b.max.y)) :
@@ -418,41 +333,8 @@ theorem Box2.common_of_axes (a b : Box2 α) (ha : ¬ Box2.Inverted a) (hb : ¬ B
   simp only [Box2.Inverted, not_or, not_lt] at ha hb
   refine ⟨⟨max a.min.x b.min.x, max a.min.y b.min.y⟩, ?_, ?_⟩ <;> simp only [Box2.Mem, le_max_iff, max_le_iff] <;> bord
 
-theorem Box2.isEmpty_iff (b : Box2 α) : Gen.Box2.isEmpty b = true ↔ Box2.Inverted b := by
-  simp only [Gen.Box2.isEmpty, ite_true_iff, ite_false_iff, ite_false'_iff, Box2.Inverted, Bool.false_eq_true, or_false, and_true, not_lt, not_le] <;> tauto
-
-theorem Box2.hasVolume_iff (b : Box2 α) : Gen.Box2.hasVolume b = true ↔ b.min.x < b.max.x ∧ b.min.y < b.max.y := by
-  simp only [Gen.Box2.hasVolume, ite_true_iff, ite_false_iff, ite_false'_iff, Bool.false_eq_true, or_false, and_true, not_lt, not_le] <;> tauto
-
-theorem Box2.isInfinite_iff (tmax tlowest : α) (b : Box2 α) :
-    Gen.Box2.isInfinite tmax tlowest b = true ↔ b = Box2.canonInfinite tmax tlowest := by
-  obtain ⟨⟨l0, l1⟩, ⟨u0, u1⟩⟩ := b
-  simp only [Gen.Box2.isInfinite, ite_false_iff, ite_false'_iff, not_not, Box2.canonInfinite, Box2.mk.injEq, V2.mk.injEq, and_true] <;> tauto
-
-theorem Box2.eq_iff (a b : Box2 α) : Gen.Box2.eq a b = true ↔ a = b := by
-  obtain ⟨⟨m0, m1⟩, ⟨v0, v1⟩⟩ := a
-  obtain ⟨⟨l0, l1⟩, ⟨u0, u1⟩⟩ := b
-  simp only [Gen.Box2.eq, ite_false_iff, ite_false'_iff, not_not, Box2.mk.injEq, V2.mk.injEq, and_true] <;> tauto
-
-theorem Box2.ne_eq_not_eq (a b : Box2 α) : Gen.Box2.ne a b = !Gen.Box2.eq a b := by
-  unfold Gen.Box2.ne Gen.Box2.eq; split_ifs <;> rfl
-
 /-- normal form of `clip` / `closestPointInBox`: per axis `(p < min) ? min : (p > max) ? max : p` -/
 def Box2.clipN (p : V2 α) (b : Box2 α) : V2 α := ⟨sclamp p.x b.min.x b.max.x, sclamp p.y b.min.y b.max.y⟩
-
-theorem Box2.clip_eq (p : V2 α) (b : Box2 α) : Gen.Box2.clip p b = Box2.clipN p b := by
-  unfold Gen.Box2.clip Box2.clipN sclamp
-  casesplit h0a : p.x < b.min.x <;>
-  casesplit h0b : b.max.x < p.x <;>
-  casesplit h1a : p.y < b.min.y <;>
-  casesplit h1b : b.max.y < p.y
-
-theorem Box2.closestPointInBox_eq (p : V2 α) (b : Box2 α) : Gen.Box2.closestPointInBox p b = Box2.clipN p b := by
-  unfold Gen.Box2.closestPointInBox Box2.clipN sclamp
-  casesplit h0a : p.x < b.min.x <;>
-  casesplit h0b : b.max.x < p.x <;>
-  casesplit h1a : p.y < b.min.y <;>
-  casesplit h1b : b.max.y < p.y
 
 theorem Box2.clipN_mem (p : V2 α) (b : Box2 α) (hb : ¬ Box2.Inverted b) : Box2.Mem (Box2.clipN p b) b := by
   simp only [Box2.Inverted, not_or, not_lt] at hb
@@ -527,24 +409,6 @@ theorem Box3.ext_s (b : Box3 α) (lo hi : V3 α) : Box3.ext b lo hi =
     ⟨⟨smin b.min.x lo.x, smin b.min.y lo.y, smin b.min.z lo.z⟩, ⟨smax b.max.x hi.x, smax b.max.y hi.y, smax b.max.z hi.z⟩⟩ := by
   simp only [Box3.ext, smin_eq_min, smax_eq_max]
 
-theorem Box3.extendByPoint_eq (b : Box3 α) (p : V3 α) : Gen.Box3.extendByPoint b p = Box3.ext b p p := by
-  rw [Box3.ext_s]; unfold Gen.Box3.extendByPoint smin smax
-  casesplit h0a : p.x < b.min.x <;>
-  casesplit h0b : b.max.x < p.x <;>
-  casesplit h1a : p.y < b.min.y <;>
-  casesplit h1b : b.max.y < p.y <;>
-  casesplit h2a : p.z < b.min.z <;>
-  casesplit h2b : b.max.z < p.z
-
-theorem Box3.extendByBox_eq (b : Box3 α) (o : Box3 α) : Gen.Box3.extendByBox b o = Box3.ext b o.min o.max := by
-  rw [Box3.ext_s]; unfold Gen.Box3.extendByBox smin smax
-  casesplit h0a : o.min.x < b.min.x <;>
-  casesplit h0b : b.max.x < o.max.x <;>
-  casesplit h1a : o.min.y < b.min.y <;>
-  casesplit h1b : b.max.y < o.max.y <;>
-  casesplit h2a : o.min.z < b.min.z <;>
-  casesplit h2b : b.max.z < o.max.z
-
 /-- extending a non-inverted box by a non-inverted range is their least upper bound -/
 theorem Box3.ext_subset_iff (b c : Box3 α) (lo hi : V3 α) (hb : ¬ Box3.Inverted b) (h0 : lo.x ≤ hi.x) (h1 : lo.y ≤ hi.y) (h2 : lo.z ≤ hi.z) :
     Box3.Subset (Box3.ext b lo hi) c ↔ Box3.Subset b c ∧ Box3.Subset ⟨lo, hi⟩ c := by
@@ -575,21 +439,21 @@ theorem Box3.ext_by_canonEmpty (tmax tlowest : α) (hr : ∀ x : α, tlowest ≤
   simp only [Box3.ext, Box3.canonEmpty, min_eq_left (hr _).2, max_eq_left (hr _).1]
 
 /-- one `extendBy` call -/
-def Box3.step (b : Box3 α) : Box3.Arg α → Box3 α
-  | .pt p => Gen.Box3.extendByPoint b p
-  | .bx o => Gen.Box3.extendByBox b o
+def Box3.stepN (b : Box3 α) : Box3.Arg α → Box3 α
+  | .pt p => Box3.ext b p p
+  | .bx o => Box3.ext b o.min o.max
 
 /-- a sequence of `extendBy` calls, in order -/
-def Box3.extendAll (b : Box3 α) (args : List (Box3.Arg α)) : Box3 α := args.foldl Box3.step b
+def Box3.extendAllN (b : Box3 α) (args : List (Box3.Arg α)) : Box3 α := args.foldl Box3.stepN b
 
-theorem Box3.step_spec (tmax tlowest : α) (hlt : tlowest < tmax) (hr : ∀ x : α, tlowest ≤ x ∧ x ≤ tmax)
+theorem Box3.stepN_spec (tmax tlowest : α) (hlt : tlowest < tmax) (hr : ∀ x : α, tlowest ≤ x ∧ x ≤ tmax)
     (b : Box3 α) (hb : Box3.Canon tmax tlowest b) (a : Box3.Arg α) (ha : a.Ok tmax tlowest) :
-    Box3.Canon tmax tlowest (Box3.step b a) ∧ ∀ c, Box3.Subset (Box3.step b a) c ↔ Box3.Subset b c ∧ a.Within c := by
+    Box3.Canon tmax tlowest (Box3.stepN b a) ∧ ∀ c, Box3.Subset (Box3.stepN b a) c ↔ Box3.Subset b c ∧ a.Within c := by
   have hce : ∀ c, Box3.Subset (Box3.canonEmpty tmax tlowest) c :=
     fun c => Box3.subset_of_inverted _ c (Box3.canonEmpty_inverted tmax tlowest hlt)
   cases a with
   | pt p =>
-    simp only [Box3.step, Box3.extendByPoint_eq, Box3.Arg.Within]
+    simp only [Box3.stepN, Box3.Arg.Within]
     rcases hb with hb | rfl
     · refine ⟨Or.inl (Box3.ext_not_inverted b p p hb), fun c => ?_⟩
       rw [Box3.ext_subset_iff b c p p hb (le_refl _) (le_refl _) (le_refl _), Box3.point_subset_iff]
@@ -598,7 +462,7 @@ theorem Box3.step_spec (tmax tlowest : α) (hlt : tlowest < tmax) (hr : ∀ x : 
       · simp only [Box3.Inverted, not_or, not_lt]; bord
       · rw [Box3.point_subset_iff]; exact ⟨fun h => ⟨hce c, h⟩, fun h => h.2⟩
   | bx o =>
-    simp only [Box3.step, Box3.extendByBox_eq, Box3.Arg.Within]
+    simp only [Box3.stepN, Box3.Arg.Within]
     simp only [Box3.Arg.Ok] at ha
     rcases hb with hb | rfl
     · rcases ha with ho | rfl
@@ -612,44 +476,23 @@ theorem Box3.step_spec (tmax tlowest : α) (hlt : tlowest < tmax) (hr : ∀ x : 
     · rw [Box3.ext_canonEmpty tmax tlowest hr]
       exact ⟨ha, fun c => ⟨fun h => ⟨hce c, h⟩, fun h => h.2⟩⟩
 
-theorem Box3.extendAll_spec (tmax tlowest : α) (hlt : tlowest < tmax) (hr : ∀ x : α, tlowest ≤ x ∧ x ≤ tmax)
+theorem Box3.extendAllN_spec (tmax tlowest : α) (hlt : tlowest < tmax) (hr : ∀ x : α, tlowest ≤ x ∧ x ≤ tmax)
     (args : List (Box3.Arg α)) : ∀ (b : Box3 α), Box3.Canon tmax tlowest b → (∀ a ∈ args, a.Ok tmax tlowest) →
-    Box3.Canon tmax tlowest (Box3.extendAll b args) ∧
-      ∀ c, Box3.Subset (Box3.extendAll b args) c ↔ Box3.Subset b c ∧ ∀ a ∈ args, a.Within c := by
+    Box3.Canon tmax tlowest (Box3.extendAllN b args) ∧
+      ∀ c, Box3.Subset (Box3.extendAllN b args) c ↔ Box3.Subset b c ∧ ∀ a ∈ args, a.Within c := by
   induction args with
-  | nil => intro b hb _; exact ⟨hb, fun c => by simp [Box3.extendAll]⟩
+  | nil => intro b hb _; exact ⟨hb, fun c => by simp [Box3.extendAllN]⟩
   | cons a rest ih =>
     intro b hb hargs
-    have hs := Box3.step_spec tmax tlowest hlt hr b hb a (hargs a (List.mem_cons_self ..))
-    have := ih (Box3.step b a) hs.1 (fun x hx => hargs x (List.mem_cons_of_mem _ hx))
+    have hs := Box3.stepN_spec tmax tlowest hlt hr b hb a (hargs a (List.mem_cons_self ..))
+    have := ih (Box3.stepN b a) hs.1 (fun x hx => hargs x (List.mem_cons_of_mem _ hx))
     refine ⟨this.1, fun c => ?_⟩
     have h2 := this.2 c
-    simp only [Box3.extendAll, List.foldl_cons, List.mem_cons, forall_eq_or_imp] at h2 ⊢
+    simp only [Box3.extendAllN, List.foldl_cons, List.mem_cons, forall_eq_or_imp] at h2 ⊢
     rw [h2, hs.2 c, and_assoc]
-
-theorem Box3.intersectsPoint_iff (b : Box3 α) (p : V3 α) : Gen.Box3.intersectsPoint b p = true ↔ Box3.Mem p b := by
-  simp only [Gen.Box3.intersectsPoint, ite_false_iff, ite_false'_iff, not_lt, not_le, Box3.Mem, and_assoc, and_true] <;> tauto
-
-/-- for NON-EMPTY boxes `intersects(box)` is per-axis overlap of the min/max pairs (written so that it also holds if the
-code tests emptiness first) -/
-theorem Box3.intersectsBox_iff_axes_of_nonempty (a b : Box3 α) (ha : ¬ Box3.Inverted a) (hb : ¬ Box3.Inverted b) :
-    Gen.Box3.intersectsBox a b = true ↔ (b.min.x ≤ a.max.x ∧ a.min.x ≤ b.max.x) ∧ (b.min.y ≤ a.max.y ∧ a.min.y ≤ b.max.y) ∧ (b.min.z ≤ a.max.z ∧ a.min.z ≤ b.max.z) := by
-  simp only [Box3.Inverted, not_or, not_lt] at ha hb
-  simp only [Gen.Box3.intersectsBox, ite_false_iff, ite_false'_iff, ite_true_iff, not_lt, not_le, and_assoc, and_true] <;> tauto
 
 theorem Box3.not_inverted_of_mem (p : V3 α) (a : Box3 α) (h : Box3.Mem p a) : ¬ Box3.Inverted a :=
   fun hi => (Box3.isEmptySet_iff a).2 hi p h
-
-theorem Box3.intersectsBox_of_common (a b : Box3 α) (h : ∃ p, Box3.Mem p a ∧ Box3.Mem p b) :
-    Gen.Box3.intersectsBox a b = true := by
-  obtain ⟨p, hpa, hpb⟩ := h
-  rw [Box3.intersectsBox_iff_axes_of_nonempty a b (Box3.not_inverted_of_mem p a hpa) (Box3.not_inverted_of_mem p b hpb)]
-  obtain ⟨⟨q0a, q0b⟩, ⟨q1a, q1b⟩, ⟨q2a, q2b⟩⟩ := hpa
-  obtain ⟨⟨r0a, r0b⟩, ⟨r1a, r1b⟩, ⟨r2a, r2b⟩⟩ := hpb
-  bord
-
-theorem Box3.intersectsBox_symm (a b : Box3 α) : Gen.Box3.intersectsBox a b = Gen.Box3.intersectsBox b a := by
-  unfold Gen.Box3.intersectsBox; split_ifs <;> first | rfl | (exfalso; bord)
 
 theorem Box3.common_of_axes (a b : Box3 α) (ha : ¬ Box3.Inverted a) (hb : ¬ Box3.Inverted b)
     (h : (b.min.x ≤ a.max.x ∧ a.min.x ≤ b.max.x) ∧ (b.min.y ≤ a.max.y ∧ a.min.y ≤ b.max.y) ∧ (b.min.z ≤ a.max.z ∧ a.min.z ≤ b.max.z)) :
@@ -657,45 +500,8 @@ theorem Box3.common_of_axes (a b : Box3 α) (ha : ¬ Box3.Inverted a) (hb : ¬ B
   simp only [Box3.Inverted, not_or, not_lt] at ha hb
   refine ⟨⟨max a.min.x b.min.x, max a.min.y b.min.y, max a.min.z b.min.z⟩, ?_, ?_⟩ <;> simp only [Box3.Mem, le_max_iff, max_le_iff] <;> bord
 
-theorem Box3.isEmpty_iff (b : Box3 α) : Gen.Box3.isEmpty b = true ↔ Box3.Inverted b := by
-  simp only [Gen.Box3.isEmpty, ite_true_iff, ite_false_iff, ite_false'_iff, Box3.Inverted, Bool.false_eq_true, or_false, and_true, not_lt, not_le] <;> tauto
-
-theorem Box3.hasVolume_iff (b : Box3 α) : Gen.Box3.hasVolume b = true ↔ b.min.x < b.max.x ∧ b.min.y < b.max.y ∧ b.min.z < b.max.z := by
-  simp only [Gen.Box3.hasVolume, ite_true_iff, ite_false_iff, ite_false'_iff, Bool.false_eq_true, or_false, and_true, not_lt, not_le] <;> tauto
-
-theorem Box3.isInfinite_iff (tmax tlowest : α) (b : Box3 α) :
-    Gen.Box3.isInfinite tmax tlowest b = true ↔ b = Box3.canonInfinite tmax tlowest := by
-  obtain ⟨⟨l0, l1, l2⟩, ⟨u0, u1, u2⟩⟩ := b
-  simp only [Gen.Box3.isInfinite, ite_false_iff, ite_false'_iff, not_not, Box3.canonInfinite, Box3.mk.injEq, V3.mk.injEq, and_true] <;> tauto
-
-theorem Box3.eq_iff (a b : Box3 α) : Gen.Box3.eq a b = true ↔ a = b := by
-  obtain ⟨⟨m0, m1, m2⟩, ⟨v0, v1, v2⟩⟩ := a
-  obtain ⟨⟨l0, l1, l2⟩, ⟨u0, u1, u2⟩⟩ := b
-  simp only [Gen.Box3.eq, ite_false_iff, ite_false'_iff, not_not, Box3.mk.injEq, V3.mk.injEq, and_true] <;> tauto
-
-theorem Box3.ne_eq_not_eq (a b : Box3 α) : Gen.Box3.ne a b = !Gen.Box3.eq a b := by
-  unfold Gen.Box3.ne Gen.Box3.eq; split_ifs <;> rfl
-
 /-- normal form of `clip` / `closestPointInBox`: per axis `(p < min) ? min : (p > max) ? max : p` -/
 def Box3.clipN (p : V3 α) (b : Box3 α) : V3 α := ⟨sclamp p.x b.min.x b.max.x, sclamp p.y b.min.y b.max.y, sclamp p.z b.min.z b.max.z⟩
-
-theorem Box3.clip_eq (p : V3 α) (b : Box3 α) : Gen.Box3.clip p b = Box3.clipN p b := by
-  unfold Gen.Box3.clip Box3.clipN sclamp
-  casesplit h0a : p.x < b.min.x <;>
-  casesplit h0b : b.max.x < p.x <;>
-  casesplit h1a : p.y < b.min.y <;>
-  casesplit h1b : b.max.y < p.y <;>
-  casesplit h2a : p.z < b.min.z <;>
-  casesplit h2b : b.max.z < p.z
-
-theorem Box3.closestPointInBox_eq (p : V3 α) (b : Box3 α) : Gen.Box3.closestPointInBox p b = Box3.clipN p b := by
-  unfold Gen.Box3.closestPointInBox Box3.clipN sclamp
-  casesplit h0a : p.x < b.min.x <;>
-  casesplit h0b : b.max.x < p.x <;>
-  casesplit h1a : p.y < b.min.y <;>
-  casesplit h1b : b.max.y < p.y <;>
-  casesplit h2a : p.z < b.min.z <;>
-  casesplit h2b : b.max.z < p.z
 
 theorem Box3.clipN_mem (p : V3 α) (b : Box3 α) (hb : ¬ Box3.Inverted b) : Box3.Mem (Box3.clipN p b) b := by
   simp only [Box3.Inverted, not_or, not_lt] at hb
@@ -770,28 +576,6 @@ theorem Box4.ext_s (b : Box4 α) (lo hi : V4 α) : Box4.ext b lo hi =
     ⟨⟨smin b.min.x lo.x, smin b.min.y lo.y, smin b.min.z lo.z, smin b.min.w lo.w⟩, ⟨smax b.max.x hi.x, smax b.max.y hi.y, smax b.max.z hi.z, smax b.max.w hi.w⟩⟩ := by
   simp only [Box4.ext, smin_eq_min, smax_eq_max]
 
-theorem Box4.extendByPoint_eq (b : Box4 α) (p : V4 α) : Gen.Box4.extendByPoint b p = Box4.ext b p p := by
-  rw [Box4.ext_s]; unfold Gen.Box4.extendByPoint smin smax
-  casesplit h0a : p.x < b.min.x <;>
-  casesplit h0b : b.max.x < p.x <;>
-  casesplit h1a : p.y < b.min.y <;>
-  casesplit h1b : b.max.y < p.y <;>
-  casesplit h2a : p.z < b.min.z <;>
-  casesplit h2b : b.max.z < p.z <;>
-  casesplit h3a : p.w < b.min.w <;>
-  casesplit h3b : b.max.w < p.w
-
-theorem Box4.extendByBox_eq (b : Box4 α) (o : Box4 α) : Gen.Box4.extendByBox b o = Box4.ext b o.min o.max := by
-  rw [Box4.ext_s]; unfold Gen.Box4.extendByBox smin smax
-  casesplit h0a : o.min.x < b.min.x <;>
-  casesplit h0b : b.max.x < o.max.x <;>
-  casesplit h1a : o.min.y < b.min.y <;>
-  casesplit h1b : b.max.y < o.max.y <;>
-  casesplit h2a : o.min.z < b.min.z <;>
-  casesplit h2b : b.max.z < o.max.z <;>
-  casesplit h3a : o.min.w < b.min.w <;>
-  casesplit h3b : b.max.w < o.max.w
-
 /-- extending a non-inverted box by a non-inverted range is their least upper bound -/
 theorem Box4.ext_subset_iff (b c : Box4 α) (lo hi : V4 α) (hb : ¬ Box4.Inverted b) (h0 : lo.x ≤ hi.x) (h1 : lo.y ≤ hi.y) (h2 : lo.z ≤ hi.z) (h3 : lo.w ≤ hi.w) :
     Box4.Subset (Box4.ext b lo hi) c ↔ Box4.Subset b c ∧ Box4.Subset ⟨lo, hi⟩ c := by
@@ -822,21 +606,21 @@ theorem Box4.ext_by_canonEmpty (tmax tlowest : α) (hr : ∀ x : α, tlowest ≤
   simp only [Box4.ext, Box4.canonEmpty, min_eq_left (hr _).2, max_eq_left (hr _).1]
 
 /-- one `extendBy` call -/
-def Box4.step (b : Box4 α) : Box4.Arg α → Box4 α
-  | .pt p => Gen.Box4.extendByPoint b p
-  | .bx o => Gen.Box4.extendByBox b o
+def Box4.stepN (b : Box4 α) : Box4.Arg α → Box4 α
+  | .pt p => Box4.ext b p p
+  | .bx o => Box4.ext b o.min o.max
 
 /-- a sequence of `extendBy` calls, in order -/
-def Box4.extendAll (b : Box4 α) (args : List (Box4.Arg α)) : Box4 α := args.foldl Box4.step b
+def Box4.extendAllN (b : Box4 α) (args : List (Box4.Arg α)) : Box4 α := args.foldl Box4.stepN b
 
-theorem Box4.step_spec (tmax tlowest : α) (hlt : tlowest < tmax) (hr : ∀ x : α, tlowest ≤ x ∧ x ≤ tmax)
+theorem Box4.stepN_spec (tmax tlowest : α) (hlt : tlowest < tmax) (hr : ∀ x : α, tlowest ≤ x ∧ x ≤ tmax)
     (b : Box4 α) (hb : Box4.Canon tmax tlowest b) (a : Box4.Arg α) (ha : a.Ok tmax tlowest) :
-    Box4.Canon tmax tlowest (Box4.step b a) ∧ ∀ c, Box4.Subset (Box4.step b a) c ↔ Box4.Subset b c ∧ a.Within c := by
+    Box4.Canon tmax tlowest (Box4.stepN b a) ∧ ∀ c, Box4.Subset (Box4.stepN b a) c ↔ Box4.Subset b c ∧ a.Within c := by
   have hce : ∀ c, Box4.Subset (Box4.canonEmpty tmax tlowest) c :=
     fun c => Box4.subset_of_inverted _ c (Box4.canonEmpty_inverted tmax tlowest hlt)
   cases a with
   | pt p =>
-    simp only [Box4.step, Box4.extendByPoint_eq, Box4.Arg.Within]
+    simp only [Box4.stepN, Box4.Arg.Within]
     rcases hb with hb | rfl
     · refine ⟨Or.inl (Box4.ext_not_inverted b p p hb), fun c => ?_⟩
       rw [Box4.ext_subset_iff b c p p hb (le_refl _) (le_refl _) (le_refl _) (le_refl _), Box4.point_subset_iff]
@@ -845,7 +629,7 @@ theorem Box4.step_spec (tmax tlowest : α) (hlt : tlowest < tmax) (hr : ∀ x : 
       · simp only [Box4.Inverted, not_or, not_lt]; bord
       · rw [Box4.point_subset_iff]; exact ⟨fun h => ⟨hce c, h⟩, fun h => h.2⟩
   | bx o =>
-    simp only [Box4.step, Box4.extendByBox_eq, Box4.Arg.Within]
+    simp only [Box4.stepN, Box4.Arg.Within]
     simp only [Box4.Arg.Ok] at ha
     rcases hb with hb | rfl
     · rcases ha with ho | rfl
@@ -859,44 +643,23 @@ theorem Box4.step_spec (tmax tlowest : α) (hlt : tlowest < tmax) (hr : ∀ x : 
     · rw [Box4.ext_canonEmpty tmax tlowest hr]
       exact ⟨ha, fun c => ⟨fun h => ⟨hce c, h⟩, fun h => h.2⟩⟩
 
-theorem Box4.extendAll_spec (tmax tlowest : α) (hlt : tlowest < tmax) (hr : ∀ x : α, tlowest ≤ x ∧ x ≤ tmax)
+theorem Box4.extendAllN_spec (tmax tlowest : α) (hlt : tlowest < tmax) (hr : ∀ x : α, tlowest ≤ x ∧ x ≤ tmax)
     (args : List (Box4.Arg α)) : ∀ (b : Box4 α), Box4.Canon tmax tlowest b → (∀ a ∈ args, a.Ok tmax tlowest) →
-    Box4.Canon tmax tlowest (Box4.extendAll b args) ∧
-      ∀ c, Box4.Subset (Box4.extendAll b args) c ↔ Box4.Subset b c ∧ ∀ a ∈ args, a.Within c := by
+    Box4.Canon tmax tlowest (Box4.extendAllN b args) ∧
+      ∀ c, Box4.Subset (Box4.extendAllN b args) c ↔ Box4.Subset b c ∧ ∀ a ∈ args, a.Within c := by
   induction args with
-  | nil => intro b hb _; exact ⟨hb, fun c => by simp [Box4.extendAll]⟩
+  | nil => intro b hb _; exact ⟨hb, fun c => by simp [Box4.extendAllN]⟩
   | cons a rest ih =>
     intro b hb hargs
-    have hs := Box4.step_spec tmax tlowest hlt hr b hb a (hargs a (List.mem_cons_self ..))
-    have := ih (Box4.step b a) hs.1 (fun x hx => hargs x (List.mem_cons_of_mem _ hx))
+    have hs := Box4.stepN_spec tmax tlowest hlt hr b hb a (hargs a (List.mem_cons_self ..))
+    have := ih (Box4.stepN b a) hs.1 (fun x hx => hargs x (List.mem_cons_of_mem _ hx))
     refine ⟨this.1, fun c => ?_⟩
     have h2 := this.2 c
-    simp only [Box4.extendAll, List.foldl_cons, List.mem_cons, forall_eq_or_imp] at h2 ⊢
+    simp only [Box4.extendAllN, List.foldl_cons, List.mem_cons, forall_eq_or_imp] at h2 ⊢
     rw [h2, hs.2 c, and_assoc]
-
-theorem Box4.intersectsPoint_iff (b : Box4 α) (p : V4 α) : Gen.Box4.intersectsPoint b p = true ↔ Box4.Mem p b := by
-  simp only [Gen.Box4.intersectsPoint, ite_false_iff, ite_false'_iff, not_lt, not_le, Box4.Mem, and_assoc, and_true] <;> tauto
-
-/-- for NON-EMPTY boxes `intersects(box)` is per-axis overlap of the min/max pairs (written so that it also holds if the
-code tests emptiness first) -/
-theorem Box4.intersectsBox_iff_axes_of_nonempty (a b : Box4 α) (ha : ¬ Box4.Inverted a) (hb : ¬ Box4.Inverted b) :
-    Gen.Box4.intersectsBox a b = true ↔ (b.min.x ≤ a.max.x ∧ a.min.x ≤ b.max.x) ∧ (b.min.y ≤ a.max.y ∧ a.min.y ≤ b.max.y) ∧ (b.min.z ≤ a.max.z ∧ a.min.z ≤ b.max.z) ∧ (b.min.w ≤ a.max.w ∧ a.min.w ≤ b.max.w) := by
-  simp only [Box4.Inverted, not_or, not_lt] at ha hb
-  simp only [Gen.Box4.intersectsBox, ite_false_iff, ite_false'_iff, ite_true_iff, not_lt, not_le, and_assoc, and_true] <;> tauto
 
 theorem Box4.not_inverted_of_mem (p : V4 α) (a : Box4 α) (h : Box4.Mem p a) : ¬ Box4.Inverted a :=
   fun hi => (Box4.isEmptySet_iff a).2 hi p h
-
-theorem Box4.intersectsBox_of_common (a b : Box4 α) (h : ∃ p, Box4.Mem p a ∧ Box4.Mem p b) :
-    Gen.Box4.intersectsBox a b = true := by
-  obtain ⟨p, hpa, hpb⟩ := h
-  rw [Box4.intersectsBox_iff_axes_of_nonempty a b (Box4.not_inverted_of_mem p a hpa) (Box4.not_inverted_of_mem p b hpb)]
-  obtain ⟨⟨q0a, q0b⟩, ⟨q1a, q1b⟩, ⟨q2a, q2b⟩, ⟨q3a, q3b⟩⟩ := hpa
-  obtain ⟨⟨r0a, r0b⟩, ⟨r1a, r1b⟩, ⟨r2a, r2b⟩, ⟨r3a, r3b⟩⟩ := hpb
-  bord
-
-theorem Box4.intersectsBox_symm (a b : Box4 α) : Gen.Box4.intersectsBox a b = Gen.Box4.intersectsBox b a := by
-  unfold Gen.Box4.intersectsBox; split_ifs <;> first | rfl | (exfalso; bord)
 
 theorem Box4.common_of_axes (a b : Box4 α) (ha : ¬ Box4.Inverted a) (hb : ¬ Box4.Inverted b)
     (h : (b.min.x ≤ a.max.x ∧ a.min.x ≤ b.max.x) ∧ (b.min.y ≤ a.max.y ∧ a.min.y ≤ b.max.y) ∧ (b.min.z ≤ a.max.z ∧ a.min.z ≤ b.max.z) ∧ (b.min.w ≤ a.max.w ∧ a.min.w ≤ b.max.w)) :
@@ -904,49 +667,8 @@ theorem Box4.common_of_axes (a b : Box4 α) (ha : ¬ Box4.Inverted a) (hb : ¬ B
   simp only [Box4.Inverted, not_or, not_lt] at ha hb
   refine ⟨⟨max a.min.x b.min.x, max a.min.y b.min.y, max a.min.z b.min.z, max a.min.w b.min.w⟩, ?_, ?_⟩ <;> simp only [Box4.Mem, le_max_iff, max_le_iff] <;> bord
 
-theorem Box4.isEmpty_iff (b : Box4 α) : Gen.Box4.isEmpty b = true ↔ Box4.Inverted b := by
-  simp only [Gen.Box4.isEmpty, ite_true_iff, ite_false_iff, ite_false'_iff, Box4.Inverted, Bool.false_eq_true, or_false, and_true, not_lt, not_le] <;> tauto
-
-theorem Box4.hasVolume_iff (b : Box4 α) : Gen.Box4.hasVolume b = true ↔ b.min.x < b.max.x ∧ b.min.y < b.max.y ∧ b.min.z < b.max.z ∧ b.min.w < b.max.w := by
-  simp only [Gen.Box4.hasVolume, ite_true_iff, ite_false_iff, ite_false'_iff, Bool.false_eq_true, or_false, and_true, not_lt, not_le] <;> tauto
-
-theorem Box4.isInfinite_iff (tmax tlowest : α) (b : Box4 α) :
-    Gen.Box4.isInfinite tmax tlowest b = true ↔ b = Box4.canonInfinite tmax tlowest := by
-  obtain ⟨⟨l0, l1, l2, l3⟩, ⟨u0, u1, u2, u3⟩⟩ := b
-  simp only [Gen.Box4.isInfinite, ite_false_iff, ite_false'_iff, not_not, Box4.canonInfinite, Box4.mk.injEq, V4.mk.injEq, and_true] <;> tauto
-
-theorem Box4.eq_iff (a b : Box4 α) : Gen.Box4.eq a b = true ↔ a = b := by
-  obtain ⟨⟨m0, m1, m2, m3⟩, ⟨v0, v1, v2, v3⟩⟩ := a
-  obtain ⟨⟨l0, l1, l2, l3⟩, ⟨u0, u1, u2, u3⟩⟩ := b
-  simp only [Gen.Box4.eq, ite_false_iff, ite_false'_iff, not_not, Box4.mk.injEq, V4.mk.injEq, and_true] <;> tauto
-
-theorem Box4.ne_eq_not_eq (a b : Box4 α) : Gen.Box4.ne a b = !Gen.Box4.eq a b := by
-  unfold Gen.Box4.ne Gen.Box4.eq; split_ifs <;> rfl
-
 /-- normal form of `clip` / `closestPointInBox`: per axis `(p < min) ? min : (p > max) ? max : p` -/
 def Box4.clipN (p : V4 α) (b : Box4 α) : V4 α := ⟨sclamp p.x b.min.x b.max.x, sclamp p.y b.min.y b.max.y, sclamp p.z b.min.z b.max.z, sclamp p.w b.min.w b.max.w⟩
-
-theorem Box4.clip_eq (p : V4 α) (b : Box4 α) : Gen.Box4.clip p b = Box4.clipN p b := by
-  unfold Gen.Box4.clip Box4.clipN sclamp
-  casesplit h0a : p.x < b.min.x <;>
-  casesplit h0b : b.max.x < p.x <;>
-  casesplit h1a : p.y < b.min.y <;>
-  casesplit h1b : b.max.y < p.y <;>
-  casesplit h2a : p.z < b.min.z <;>
-  casesplit h2b : b.max.z < p.z <;>
-  casesplit h3a : p.w < b.min.w <;>
-  casesplit h3b : b.max.w < p.w
-
-theorem Box4.closestPointInBox_eq (p : V4 α) (b : Box4 α) : Gen.Box4.closestPointInBox p b = Box4.clipN p b := by
-  unfold Gen.Box4.closestPointInBox Box4.clipN sclamp
-  casesplit h0a : p.x < b.min.x <;>
-  casesplit h0b : b.max.x < p.x <;>
-  casesplit h1a : p.y < b.min.y <;>
-  casesplit h1b : b.max.y < p.y <;>
-  casesplit h2a : p.z < b.min.z <;>
-  casesplit h2b : b.max.z < p.z <;>
-  casesplit h3a : p.w < b.min.w <;>
-  casesplit h3b : b.max.w < p.w
 
 theorem Box4.clipN_mem (p : V4 α) (b : Box4 α) (hb : ¬ Box4.Inverted b) : Box4.Mem (Box4.clipN p b) b := by
   simp only [Box4.Inverted, not_or, not_lt] at hb
